@@ -352,7 +352,7 @@ get_make_seq(MakeSeqIndex make_seq) {
 void InterrogateDatabase::
 remove_type(TypeIndex type) {
   _type_map.erase(type);
-  VERIF_EVENT("{\"e\":\"RemoveType\",\"i\":" << type << "}");
+  VERIF_BUILD_EVENT("{\"e\":\"RemoveType\",\"i\":" << type << "}");
 }
 
 /**
@@ -460,7 +460,7 @@ set_error_flag(bool error_flag) {
  */
 int InterrogateDatabase::
 get_next_index() {
-  VERIF_EVENT("{\"e\":\"NextIndex\",\"i\":" << _next_index << "}");
+  VERIF_BUILD_EVENT("{\"e\":\"NextIndex\",\"i\":" << _next_index << "}");
   return _next_index++;
 }
 
@@ -487,7 +487,7 @@ add_type(TypeIndex index, const InterrogateType &type) {
     _global_types.push_back(index);
   }
   _all_types.push_back(index);
-  VERIF_EVENT("{\"e\":\"AddType\",\"i\":" << index << ",\"ins\":" << (inserted ? 1 : 0) << "," << verif_idb::type_json(_type_map[index]) << "}");
+  VERIF_BUILD_EVENT("{\"e\":\"AddType\",\"i\":" << index << ",\"ins\":" << (inserted ? 1 : 0) << "," << verif_idb::type_json(_type_map[index]) << "}");
 }
 
 /**
@@ -503,7 +503,7 @@ add_function(FunctionIndex index, InterrogateFunction *function) {
     _global_functions.push_back(index);
   }
   _all_functions.push_back(index);
-  VERIF_EVENT("{\"e\":\"AddFunction\",\"i\":" << index << ",\"ins\":" << (inserted ? 1 : 0) << "," << verif_idb::function_json(*_function_map[index]) << "}");
+  VERIF_BUILD_EVENT("{\"e\":\"AddFunction\",\"i\":" << index << ",\"ins\":" << (inserted ? 1 : 0) << "," << verif_idb::function_json(*_function_map[index]) << "}");
 }
 
 /**
@@ -516,7 +516,7 @@ add_wrapper(FunctionWrapperIndex index,
   bool inserted =
     _wrapper_map.insert(FunctionWrapperMap::value_type(index, wrapper)).second;
   assert(inserted);
-  VERIF_EVENT("{\"e\":\"AddWrapper\",\"i\":" << index << ",\"ins\":" << (inserted ? 1 : 0) << "," << verif_idb::wrapper_json(_wrapper_map[index]) << "}");
+  VERIF_BUILD_EVENT("{\"e\":\"AddWrapper\",\"i\":" << index << ",\"ins\":" << (inserted ? 1 : 0) << "," << verif_idb::wrapper_json(_wrapper_map[index]) << "}");
 }
 
 /**
@@ -530,7 +530,7 @@ add_manifest(ManifestIndex index, const InterrogateManifest &manifest) {
   assert(inserted);
 
   _global_manifests.push_back(index);
-  VERIF_EVENT("{\"e\":\"AddManifest\",\"i\":" << index << ",\"ins\":" << (inserted ? 1 : 0) << "," << verif_idb::manifest_json(_manifest_map[index]) << "}");
+  VERIF_BUILD_EVENT("{\"e\":\"AddManifest\",\"i\":" << index << ",\"ins\":" << (inserted ? 1 : 0) << "," << verif_idb::manifest_json(_manifest_map[index]) << "}");
 }
 
 /**
@@ -545,7 +545,7 @@ add_element(ElementIndex index, const InterrogateElement &element) {
   if (element.is_global()) {
     _global_elements.push_back(index);
   }
-  VERIF_EVENT("{\"e\":\"AddElement\",\"i\":" << index << ",\"ins\":" << (inserted ? 1 : 0) << "," << verif_idb::element_json(_element_map[index]) << "}");
+  VERIF_BUILD_EVENT("{\"e\":\"AddElement\",\"i\":" << index << ",\"ins\":" << (inserted ? 1 : 0) << "," << verif_idb::element_json(_element_map[index]) << "}");
 }
 
 /**
@@ -556,7 +556,7 @@ add_make_seq(MakeSeqIndex index, const InterrogateMakeSeq &make_seq) {
   bool inserted =
     _make_seq_map.insert(MakeSeqMap::value_type(index, make_seq)).second;
   assert(inserted);
-  VERIF_EVENT("{\"e\":\"AddMakeSeq\",\"i\":" << index << ",\"ins\":" << (inserted ? 1 : 0) << "," << verif_idb::make_seq_json(_make_seq_map[index]) << "}");
+  VERIF_BUILD_EVENT("{\"e\":\"AddMakeSeq\",\"i\":" << index << ",\"ins\":" << (inserted ? 1 : 0) << "," << verif_idb::make_seq_json(_make_seq_map[index]) << "}");
 }
 
 /**
@@ -569,7 +569,7 @@ update_type(TypeIndex type) {
   check_latest();
 #ifdef INTERROGATE_VERIF_TRACE
   if (_type_map.count(type) == 0) {
-    VERIF_EVENT("{\"e\":\"Implicit\",\"k\":\"t\",\"i\":" << type << "}");
+    VERIF_BUILD_EVENT("{\"e\":\"Implicit\",\"k\":\"t\",\"i\":" << type << "}");
   }
 #endif  // INTERROGATE_VERIF_TRACE
   return _type_map[type];
@@ -584,7 +584,7 @@ update_function(FunctionIndex function) {
   check_latest();
 #ifdef INTERROGATE_VERIF_TRACE
   if (_function_map.count(function) == 0) {
-    VERIF_EVENT("{\"e\":\"Implicit\",\"k\":\"f\",\"i\":" << function << "}");
+    VERIF_BUILD_EVENT("{\"e\":\"Implicit\",\"k\":\"f\",\"i\":" << function << "}");
   }
 #endif  // INTERROGATE_VERIF_TRACE
   return *_function_map[function];
@@ -599,7 +599,7 @@ update_wrapper(FunctionWrapperIndex wrapper) {
   check_latest();
 #ifdef INTERROGATE_VERIF_TRACE
   if (_wrapper_map.count(wrapper) == 0) {
-    VERIF_EVENT("{\"e\":\"Implicit\",\"k\":\"w\",\"i\":" << wrapper << "}");
+    VERIF_BUILD_EVENT("{\"e\":\"Implicit\",\"k\":\"w\",\"i\":" << wrapper << "}");
   }
 #endif  // INTERROGATE_VERIF_TRACE
   return _wrapper_map[wrapper];
@@ -614,7 +614,7 @@ update_manifest(ManifestIndex manifest) {
   check_latest();
 #ifdef INTERROGATE_VERIF_TRACE
   if (_manifest_map.count(manifest) == 0) {
-    VERIF_EVENT("{\"e\":\"Implicit\",\"k\":\"m\",\"i\":" << manifest << "}");
+    VERIF_BUILD_EVENT("{\"e\":\"Implicit\",\"k\":\"m\",\"i\":" << manifest << "}");
   }
 #endif  // INTERROGATE_VERIF_TRACE
   return _manifest_map[manifest];
@@ -629,7 +629,7 @@ update_element(ElementIndex element) {
   check_latest();
 #ifdef INTERROGATE_VERIF_TRACE
   if (_element_map.count(element) == 0) {
-    VERIF_EVENT("{\"e\":\"Implicit\",\"k\":\"e\",\"i\":" << element << "}");
+    VERIF_BUILD_EVENT("{\"e\":\"Implicit\",\"k\":\"e\",\"i\":" << element << "}");
   }
 #endif  // INTERROGATE_VERIF_TRACE
   return _element_map[element];
@@ -644,7 +644,7 @@ update_make_seq(MakeSeqIndex make_seq) {
   check_latest();
 #ifdef INTERROGATE_VERIF_TRACE
   if (_make_seq_map.count(make_seq) == 0) {
-    VERIF_EVENT("{\"e\":\"Implicit\",\"k\":\"s\",\"i\":" << make_seq << "}");
+    VERIF_BUILD_EVENT("{\"e\":\"Implicit\",\"k\":\"s\",\"i\":" << make_seq << "}");
   }
 #endif  // INTERROGATE_VERIF_TRACE
   return _make_seq_map[make_seq];
@@ -776,7 +776,7 @@ remap_indices(int first_index, IndexRemapper &remap) {
     (*gei) = remap.map_from(*gei);
   }
 
-  VERIF_EVENT("{\"e\":\"Remap\",\"next\":" << _next_index << ",\"nw\":" << _wrapper_map.size() << ",\"wfirst\":" << (_wrapper_map.empty() ? 0 : _wrapper_map.begin()->first) << "}");
+  VERIF_BUILD_EVENT("{\"e\":\"Remap\",\"next\":" << _next_index << ",\"nw\":" << _wrapper_map.size() << ",\"wfirst\":" << (_wrapper_map.empty() ? 0 : _wrapper_map.begin()->first) << "}");
   return _next_index;
 }
 
